@@ -388,6 +388,12 @@ func loweredValue(v ssa.Value, seen map[ssa.Value]bool) bool {
 }
 
 func runC12(c *core.Check) {
+	c.Rule("C12.endpoint-twins", "consecutive blocks that treat the source and the destination of a connection glob are mirror images of each other")
+	if ik := c.P.Pkg("d2ir"); ik != nil {
+		if n := checkEndpointTwins(c, "C12.endpoint-twins", []*packages.Package{ik}); n < 1 {
+			c.Fail("floor", "floor:C12.endpoint-twins", token.NoPos, "no Src/Dst twin blocks found in d2ir (confirmed by hand: the two HasMultiGlob blocks of Map.createEdge)")
+		}
+	}
 	c.Rule("C12.normalise", "matchPattern compares operands under the same case normalisation")
 	c.Rule("C12.strindex", "offsets are applied to the string that was searched")
 	c.Rule("C12.reserved", "matchPattern returns true only after the reserved-keyword test failed; glob walkers append only non-reserved fields and test Name first")
@@ -878,6 +884,12 @@ func runC13(c *core.Check) {
 // ---------------------------------------------------------------------------------------------- C15
 
 func runC15(c *core.Check) {
+	c.Rule("C15.climb-loops", "loops of one function that climb the map tree with the same step stop at the same boundary (the board)")
+	if ik := c.P.Pkg("d2ir"); ik != nil {
+		if n := checkClimbLoops(c, "C15.climb-loops", []*packages.Package{ik}); n < 1 {
+			c.Fail("floor", "floor:C15.climb-loops", token.NoPos, "no function of d2ir with two climbs of one step (confirmed by hand: the two ParentMap climbs of Map.DeleteFieldKey)")
+		}
+	}
 	c.Rule("C15.copy-before-mutate", "destinations of OverlayMap/DeleteField in overlay and overlayClasses derive from a copy made in the function")
 	c.Rule("C15.restore", "CopyBase re-appends every field it temporarily removes, and copies in between")
 	isCopyCall := func(info *types.Info, e ast.Expr) bool {
@@ -1061,11 +1073,16 @@ func runC15(c *core.Check) {
 					if !ok || (be.Op != token.NEQ && be.Op != token.EQL) {
 						continue
 					}
-					kc, ok := ast.Unparen(be.X).(*ast.CallExpr)
+					// either operand order
+					bx, by := be.X, be.Y
+					if _, isCall := ast.Unparen(bx).(*ast.CallExpr); !isCall {
+						bx, by = by, bx
+					}
+					kc, ok := ast.Unparen(bx).(*ast.CallExpr)
 					if !ok || !core.IsCallTo(info, kc, "d2ir.NodeBoardKind") || core.ObjOf(info, kc.Args[0]) != v {
 						continue
 					}
-					tv, ok := info.Types[be.Y]
+					tv, ok := info.Types[by]
 					if !ok || tv.Value == nil || tv.Value.ExactString() != `""` {
 						continue
 					}
